@@ -285,6 +285,20 @@ impl Model {
                 let out: u128 = res.events.iter().map(|e| if let Ev::BankSend { from, denom, amount, .. } = e { if from == q && denom == s { *amount } else { 0 } } else { 0 }).sum();
                 *self.paid.entry(b).or_insert(0) += out;
             }
+            // what the contract pays to itself (it may be configured as its own treasury) stays with it without
+            // backing any of the three obligations: booked like a donation
+            for e in &res.events {
+                if let Ev::BankSend { from, to, denom, amount } = e {
+                    if from == q && to == q {
+                        if denom == s {
+                            self.donations_s += amount;
+                        }
+                        if denom == t {
+                            self.donations_t += amount;
+                        }
+                    }
+                }
+            }
             match op {
                 Op::NativeMint { addr, amount } if self.stakers.contains(addr) => self.staker_ext += *amount as i128,
                 Op::NativeBurn { addr, amount } if self.stakers.contains(addr) => self.staker_ext -= *amount as i128,
@@ -739,6 +753,20 @@ impl Model {
 
         // ---------------- C11
         if self.on("C11") {
+            // the treasury of the last accepted fee section (from the message, not only from the Config query)
+            if res.ok && kind == "update_config" {
+                if let Some(f) = msg.get("update_config").and_then(|u| u.get("protocol_fee_config")) {
+                    if !f.is_null() {
+                        let want = f.get("treasury_address").and_then(|x| x.as_str()).map(|x| x.to_string());
+                        if post.treasury() != want {
+                            v.push(Viol { prop: "C11", what: format!("the accepted fee section sets the treasury to {want:?} but the contract keeps {:?}", post.treasury()) });
+                        }
+                        if post.fee_rate() != vu128(f, "dao_treasury_fee") {
+                            v.push(Viol { prop: "C11", what: format!("the accepted fee section sets the rate to {} but the contract keeps {}", vu128(f, "dao_treasury_fee"), post.fee_rate()) });
+                        }
+                    }
+                }
+            }
             if is_reward {
                 let rate = pre.fee_rate();
                 let fee = prim::mul_div_floor(rate, paid_s, 100_000);
@@ -896,7 +924,7 @@ impl Model {
                             self.seen("C15", format!("post|{kind}|{}|{}|{}|{}", regime(pre.n, pre.l), regime(post.n, post.l), mag(post.n), pur.as_ref().map(|p| p.len()).unwrap_or(0)));
                         }
                         for p in &posts {
-                            if p.0 != o || &p.1 != t || Some(p.2.clone()) != pur || Some(p.3.clone()) != red {
+                            if !p.0.eq_ignore_ascii_case(&o) || &p.1 != t || Some(p.2.clone()) != pur || Some(p.3.clone()) != red {
                                 v.push(Viol { prop: "C15", what: format!("{kind}: posted (denom {}, purchase {}, redemption {}) to {}, post-transaction rates are purchase {:?} redemption {:?} for {t} at oracle {o}", p.1, p.2, p.3, p.0, pur, red) });
                             }
                         }
